@@ -10,11 +10,19 @@ Lemma poisson_fisher_series x : 0 < x ->
   is_series (fun d : nat => poisson_pmf d x * poisson_hess (INR d) x) (poisson_M x 1).
 Proof.
   intros Hx. split; [|split].
-  - apply is_series_ext with (2 := pois_total x). intros d. reflexivity.
-  - apply is_series_lim_eq with (l := (- / x) * x + 1). field; lra.
-    apply is_series_ext with (2 := pois_affine x (- / x) 1).
-    intros d. unfold poisson_pmf, pois. field; lra.
-  - apply is_series_lim_eq with (l := (/ x ^ 2) * x + 0). unfold poisson_M. field; lra.
-    apply is_series_ext with (2 := pois_affine x (/ x ^ 2) 0).
-    intros d. unfold poisson_pmf, pois, poisson_hess. field; lra.
+  - apply is_series_ext_R with (2 := pois_total x). intros d. reflexivity.
+  - assert (E : (- / x) * x + 1 = 0) by (field; lra). apply (is_series_lim_eq _ _ _ E).
+    apply is_series_ext_R with (2 := pois_affine x (- / x) 1).
+    intros d. pose proof (fact_pos d). unfold poisson_pmf, pois. field; split; lra.
+  - assert (E : (/ x ^ 2) * x + 0 = poisson_M x 1) by (unfold poisson_M; field; lra). apply (is_series_lim_eq _ _ _ E).
+    apply is_series_ext_R with (2 := pois_affine x (/ x ^ 2) 0).
+    intros d. pose proof (fact_pos d). unfold poisson_pmf, pois, poisson_hess. field; split; lra.
+Qed.
+
+Require Import NV.Base.LhCombinators.
+Lemma poisson_instance x : 0 < x -> factored R Rmult Rmult (poisson_M x) (poisson_L x) (poisson_L x).
+Proof.
+  intros Hx. split.
+  - intros v. destruct (poisson_factor x v v Hx) as [H _]. symmetry; exact H.
+  - intros w v. destruct (poisson_factor x w v Hx) as [_ H]. exact H.
 Qed.
